@@ -41,6 +41,7 @@ def run(ctx):
     if rc != 0:
         ctx.oblige("run:explorer", False, "exit %d: %s" % (rc, out[-600:]))
     sets, skips = {}, []
+    rejected_sets = 0
     if os.path.exists(ops):
         for line in open(ops):
             if line.startswith(("set ", "mset ")):
@@ -48,6 +49,14 @@ def run(ctx):
                 sets[sid] = spec
             elif line.startswith("skip "):
                 skips.append(line.rstrip("\n")[5:160])
+                # every generated set is well-formed by construction (pairwise different token rules, no token
+                # matches the empty string, twins only in different modes): the generator must accept it
+                parts = line.rstrip("\n").split(" ", 3)
+                if len(parts) >= 4 and parts[2][:1] in "wm" and ";" in parts[2]:
+                    ctx.violation("judge", "the generator rejects a well-formed token set (%s): %s" % (parts[1], parts[3][:200]),
+                                  {"case": "S-" + parts[1], "spec": parts[2] + " -", "result": {"rejected": parts[3][:400]}},
+                                  fingerprint={"clause": "generator-rejects-wellformed-set"})
+                    rejected_sets += 1
     rc, out = sh("%s < %s" % (driver, ops), timeout=3000)
     nsets = 0
     tot = {"strings": 0, "errors": 0, "nontrivial": 0, "corrbad": 0, "docdev": 0, "overtake": 0, "other": 0, "tokens": 0}
@@ -87,6 +96,7 @@ def run(ctx):
         if len(samples) < 5 and (nsets % 7 == 1):
             samples.append({"case": cid, "tokenset": spec[:200], "result": kv})
     ctx.oblige("corr:lexScan=generated-lexer", tot["corrbad"] == 0, "%d strings differ" % tot["corrbad"])
+    ctx.oblige("gen:every-well-formed-token-set-is-accepted", rejected_sets == 0, "%d sets rejected" % rejected_sets)
     ctx.coverage.update({
         "evaluations": tot["strings"], "distinct_nontrivial": tot["nontrivial"],
         "rule": "one evaluation = one (token set, input string): leaf sequence (token, character range) of the real parse vs lexScan "
